@@ -5,7 +5,7 @@
 #   git -C /repo worktree remove --force /tmp/wt-verify
 set -u
 d=$1
-wt=/tmp/wt-verify
+wt=/tmp/wt-verify${SCRATCH_ID:-}
 if [ ! -d $wt ]; then git -C /repo worktree add --detach $wt HEAD -f >/dev/null 2>&1; fi
 cd $wt && git checkout -q --detach $(git -C /repo rev-parse HEAD) 2>/dev/null; git checkout -- . ; git clean -fdq tests bindings/tests 2>/dev/null
 loc=$(python3 -c "import json;print(json.load(open('$d/meta.json')).get('demo_location','tests/'))" 2>/dev/null || echo tests/)
